@@ -231,7 +231,9 @@ def main():
     # selectors (a malformed one stays malformed) whatever was compiled before them in this process
     for near in ["f(x='a  b') > y", "f(x='a b') > y", "f( x = 'a  b' )\n  > y", "f(x='ab') > y", "f(x=' a b ') > y",
                  "f > ab", "f > a b", "f(x) as v", "f(x) a s v", "f(!x, !!ab)", "f(!x, ! !ab)", "f(x, y)", "f(x , y)", "f(xy)",
-                 "f(x=1=2) > y", "f(x=a=b) > y", "f(x) = 1 = 2", "f > y=2=2", "f(x~p(3)~p(4)) > y"]:
+                 "f(x=1=2) > y", "f(x=a=b) > y", "f(x) = 1 = 2", "f > y=2=2", "f(x~p(3)~p(4)) > y",
+                 # a parenthesised comma group among the arguments of a call
+                 "f((x, y), z)", "f((x, y), !z)", "g(x) > f((x, y), #value)", "g(f((x, y), z))", "f(((x, y), z), #value)", "f((x, y))", "f(x, (y, z))"]:
         add_parse(near, "near-miss")
     # laws
     for law, mk in LAWS:
@@ -277,7 +279,7 @@ def main():
 
     def notafunc():
         pass
-    env = {"fa": fa, "three": 3, "T": tag.T, "cls": dict}
+    env = {"fa": fa, "three": 3, "T": tag.T, "cls": dict, "both": tag.T & tag.U}     # both: a combination of tags is not a tag
     R = ["SelectorError"]
     SEL = [("unknown-meta", "fa > #nope", "refuse", False, R), ("unknown-meta-ctx", "fa(#bogus) > y", "refuse", False, R),
            ("unknown-meta-prefix", "fa > #values", "refuse", False, R), ("unknown-meta-prefix2", "fa(#enter2) > y", "refuse", False, R),
@@ -313,6 +315,7 @@ def main():
     CAPPOS = [("root-focus", "fa > {}", "y"), ("root-ctx", "fa({}) > y", "x"), ("child-focus", "ga > fa > {}", "y"),
               ("child-ctx", "ga > fa({}) > y", "x"), ("outer-ctx", "ga({}) > fa > y", "u"), ("incall-child", "ga(fa({}, !y))", "x")]
     CAPBAD = [("unknown-meta", lambda v: "#nope", R), ("category-not-tag", lambda v: v + ":three", ["TypeError"]),
+              ("category-tag-combination", lambda v: v + ":both", ["TypeError"]),
               ("category-not-tag-cls", lambda v: v + ":cls", ["TypeError"]),
               ("unknown-variable", lambda v: "nothere", R), ("tag-on-untagged", lambda v: v + ":T", R),
               ("generic-tag-nowhere", lambda v: "$z:@T", R),
@@ -327,6 +330,7 @@ def main():
     for pos, tmpl in FNPOS:
         SEL.append((f"category-not-tag@{pos}", tmpl.format(":three"), "refuse", False, ["TypeError"]))
         SEL.append((f"category-not-tag-cls@{pos}", tmpl.format(":cls"), "refuse", False, ["TypeError"]))
+        SEL.append((f"category-tag-combination@{pos}", tmpl.format(":both"), "refuse", False, ["TypeError"]))
     SEL += [("unresolvable-fn@child", "ga > zzz > y", "refuse", False, R), ("unresolvable-fn@outer", "zzz > fa > y", "refuse", False, R),
             ("not-a-function@child", "ga > three > y", "refuse", False, ["TypeError"]),
             ("second-focus-alone@child", "ga > fa(!!y)", "refuse", False, ["ValueError", "SelectorError"]),
